@@ -197,7 +197,7 @@ fn reachable() -> Vec<Type> {
                 let mut out = vec![];
                 for b in &cur {
                     for c in &cur {
-                        if let Some(t) = lib_rule(Frag::AndOr, &[*a, *b, *c], 0) {
+                        if let Ok(Some(t)) = guard(|| lib_rule(Frag::AndOr, &[*a, *b, *c], 0)) {
                             out.push(t);
                         }
                     }
@@ -221,8 +221,18 @@ fn dispatch_check(rep: &Report, r: &[Type]) -> u64 {
     let n = AtomicU64::new(0);
     let chk = |frag: Frag, term: Terminal<String, Segwitv0>, c: &[Type], k: usize| {
         n.fetch_add(1, Ordering::Relaxed);
-        let direct = lib_rule(frag, c, k);
-        let via = Type::type_check(&term).ok();
+        let (direct, via) = match (guard(|| lib_rule(frag, c, k)), guard(|| Type::type_check(&term).ok())) {
+            (Ok(d), Ok(v)) => (d, v),
+            (a, b) => {
+                rep.violation(Violation {
+                    key: format!("C05|dispatch-panic|{:?}|{}", frag, c.iter().map(|t| ST::from_lib(t).letters()).collect::<Vec<_>>().join(",")),
+                    class: format!("type-rule-panic-{:?}", frag),
+                    what: format!("a typing function panicked on reachable child types: rule {:?}, type_check {:?}", a.err(), b.err()),
+                    case: json!({"fragment": format!("{:?}", frag), "children": c.iter().map(|t| ST::from_lib(t).letters()).collect::<Vec<_>>()}),
+                });
+                return;
+            }
+        };
         if direct != via {
             rep.violation(Violation {
                 key: format!("C05|dispatch|{:?}|{}", frag, c.iter().map(|t| ST::from_lib(t).letters()).collect::<Vec<_>>().join(",")),
@@ -305,7 +315,18 @@ fn wiring<Ctx: crate::terms::Cx>(rep: &Report, ctx: &'static str, n: usize, tap:
     let hook = |t: &Terminal<String, Ctx>, r: &Result<Miniscript<String, Ctx>, miniscript::Error>| {
         att.fetch_add(1, Ordering::Relaxed);
         let (frag, c, k) = frag_of(t);
-        let direct = lib_rule(frag, &c, k);
+        let direct = match guard(|| lib_rule(frag, &c, k)) {
+            Ok(d) => d,
+            Err(p) => {
+                rep.violation(Violation {
+                    key: format!("C05|wiring-panic|{}|{:?}|{}", ctx, frag, c.iter().map(|t| ST::from_lib(t).letters()).collect::<Vec<_>>().join(",")),
+                    class: format!("type-rule-panic-{:?}", frag),
+                    what: format!("the {:?} rule panicked on the types of real children: {}", frag, p),
+                    case: json!({"ctx": ctx, "fragment": format!("{:?}", frag)}),
+                });
+                return;
+            }
+        };
         let bad = match (r, &direct) {
             (Ok(ms), Some(d)) => {
                 acc.fetch_add(1, Ordering::Relaxed);
@@ -540,6 +561,7 @@ pub fn run(tier: Tier) -> i32 {
     rep.sample(json!({"domain": "80 correctness x 12 malleability values = 960 types per child"}));
     rep.assume("spec tables transcribed from the Miniscript specification / reference ComputeType (DESIGN.md Appendix B); they are themselves validated against execution in C06");
     let t = ctr.tuples.load(Ordering::Relaxed);
+    crate::terms::report_constructor_panics(&rep, "C05");
     rep.finish(
         960 + r.len() as u64,
         t,
